@@ -556,6 +556,43 @@ where
             tin.push(guarded(|| e.eval_with_transform(&t, iv(0), iv(1), iv(2), &m).map(|r| r.0)));
         }
         if let (Ok(Ok(got)), Ok(Ok(tx)), Ok(Ok(ty)), Ok(Ok(tz))) = (r, tin[0].clone_result(), tin[1].clone_result(), tin[2].clone_result()) {
+            // The transformed box itself is judged against a reference that
+            // does not go through the interval transform: the images (f64
+            // homogeneous divide) of the corners and of a few inner points
+            // must lie in it, wherever the weight stays away from zero over
+            // the box.
+            let tame = bx.iter().take(3).all(|b| b.0.is_finite() && b.1.is_finite() && b.0.abs() < 1e6 && b.1.abs() < 1e6);
+            if tame && ![tx, ty, tz].iter().any(|i| i.has_nan()) {
+                let mm = |i: usize, j: usize| m[(i, j)] as f64;
+                let mut pts: Vec<[f64; 3]> = vec![];
+                for c in 0..8usize {
+                    pts.push([0, 1, 2].map(|k| if c >> k & 1 == 0 { bx[k].0 as f64 } else { bx[k].1 as f64 }));
+                }
+                for _ in 0..4 {
+                    pts.push([0, 1, 2].map(|k| rng.uniform(bx[k].0 as f64, bx[k].1 as f64)));
+                }
+                let wabs = |p: &[f64; 3]| (mm(3, 0) * p[0]).abs() + (mm(3, 1) * p[1]).abs() + (mm(3, 2) * p[2]).abs() + mm(3, 3).abs();
+                let w_of = |p: &[f64; 3]| mm(3, 0) * p[0] + mm(3, 1) * p[1] + mm(3, 2) * p[2] + mm(3, 3);
+                // the weight is affine: its sign and size over the box are
+                // settled by the corners
+                let w_ok = pts[..8].iter().all(|p| w_of(p) > 0.05 * wabs(p).max(1e-30)) || pts[..8].iter().all(|p| w_of(p) < -0.05 * wabs(p).max(1e-30));
+                if w_ok {
+                    st.inc("interval_transform_enclosure_checks");
+                    for p in &pts {
+                        let w = w_of(p);
+                        for (i, t) in [tx, ty, tz].iter().enumerate() {
+                            let mag = (mm(i, 0) * p[0]).abs() + (mm(i, 1) * p[1]).abs() + (mm(i, 2) * p[2]).abs() + mm(i, 3).abs();
+                            let img = (mm(i, 0) * p[0] + mm(i, 1) * p[1] + mm(i, 2) * p[2] + mm(i, 3)) / w;
+                            let tol = 1e-5 * (mag / w.abs()) * (1.0 + wabs(p) / w.abs()) + 1e-30;
+                            if img < t.lower() as f64 - tol || img > t.upper() as f64 + tol {
+                                return Err(v("interval_transform_enclosure", format!("the transformed box observed through the axis shape {i} is {t:?}, but the point {p:?} of the box maps to {img:e} (weight {w:e})"), setup()));
+                            }
+                        }
+                    }
+                } else {
+                    st.inc("interval_transform_enclosure_skipped_weight_near_zero");
+                }
+            }
             let mut inp = vec![Interval::from(0.0); vmap.len()];
             for (var, idx) in vmap.iter() {
                 inp[idx] = match var {
